@@ -1461,10 +1461,6 @@ class StorageBackendBase(StorageBackend, ABC):
         if self.read_only:
             return
 
-        if self._memory_cache:
-            # Write through to memory cache
-            self._memory_cache.put(memento, result, has_result=True)
-
         # Write data
         result_type = memento.invocation_metadata.result_type
         content_key = self.codec.store(
@@ -1476,6 +1472,11 @@ class StorageBackendBase(StorageBackend, ABC):
 
         # Write metadata
         self._metadata_source.put_memento(memento)
+
+        if self._memory_cache:
+            # Write through to memory cache, now that the memento carries its content key:
+            # other threads may take the memento from the cache and read the result from storage
+            self._memory_cache.put(memento, result, has_result=True)
 
     def read_metadata(
         self,
